@@ -12,7 +12,7 @@ import (
 
 func init() {
 	register(&Property{
-		ID: "C10",
+		ID:          "C10",
 		Explanation: "Decided for all paths of start-up: NewRaft reads the persisted term and last log, installs them, restores the newest usable snapshot, optionally replays the committed prefix, and replays configuration entries in that order, each error returned, all before the first goroutine starts; restoreSnapshot sets applied/snapshot position and both configurations from the very snapshot it restored and fails when snapshots exist but none restores; the configuration scan starts no later than snapshotIndex+1 for every start-up state (folded), so every configuration entry above the snapshot reaches the configuration tracker; the committed-prefix replay is clamped to the last index; the commit index is staged only immediately before a log append in the same function; no blocking send to the FSM goroutine's queue is reachable from NewRaft before that goroutine is started.",
 		NotDecided:  "equality of the rebuilt FSM content with the pre-crash FSM; behaviour of the stores themselves across a crash.",
 		RuleText:    "C10.R1 must-precede chain in NewRaft; R2 effect/argument rule in restoreSnapshot; R3 folded lower bound of the scan; R4 call-graph reachability of fsmMutateCh sends from NewRaft; R5 stage-then-store adjacency and clamp; R6 = C06.R6.",
